@@ -870,6 +870,46 @@ def check_alloc(ctx, acases):
     return worst
 
 
+EQ_DOCS = ['null', 'true', 'false', '0', '1', '1.0', '1e0', '2', '"a"', '"b"', '""', '"1"', '[]', '[1]', '[1,2]', '[2,1]', '[null]', '[[]]', '[true]',
+           '{}', '{"a":1}', '{"a":1,"b":2}', '{"b":2,"a":1}', '{"a":[]}', '{"a":{}}', '{"a":null}', '[{}]', '[1.5]', '[0,0]', '"null"']
+
+
+def run_eq(ctx):
+    """Value's PartialEq: two parsed documents are equal iff they denote the same value (members in order)."""
+    import json as _json
+    lines, meta = [], []
+    for a in EQ_DOCS:
+        for b in EQ_DOCS:
+            lines.append('jeq %s %s' % (hx(a), hx(b)))
+            meta.append((a, b))
+    m, im = ctx.both(lines)
+    pairs = lambda t: _json.loads(t, object_pairs_hook=lambda ps: ('obj', ps))
+    for line, (a, b), x, y in zip(lines, meta, m, im):
+        ctx.count('eq-probe')
+        def deq(u, v):
+            num = lambda z: isinstance(z, (int, float)) and not isinstance(z, bool)
+            if num(u) and num(v):
+                return float(u) == float(v)
+            if type(u) is not type(v):
+                return False
+            if isinstance(u, list):
+                return len(u) == len(v) and all(deq(p, q) for p, q in zip(u, v))
+            if isinstance(u, tuple):      # ('obj', [(key, value), ...]): members in order
+                return len(u[1]) == len(v[1]) and all(k1 == k2 and deq(x1, x2) for (k1, x1), (k2, x2) in zip(u[1], v[1]))
+            return u == v
+        va, vb = pairs(a), pairs(b)
+        same = deq(va, vb)
+        want = 'eq=%d ne=%d' % (int(same), int(not same))
+        if x != want:
+            report(ctx, {'kind': 'eq', 'line': line, 'a': a, 'b': b}, 'model=' + x, 'oracle=' + want, cls='model-vs-oracle', failing_input=False,
+                   what='model and CPython disagree on the equality of two documents')
+        if y != want:
+            report(ctx, {'kind': 'eq', 'line': line, 'a': a, 'b': b}, y, want, cls='value-eq', failing_input=True,
+                   what='Value == on the parsed documents %r and %r gives %s' % (a, b, y))
+        elif same and a != b:
+            ctx.mark_nontrivial(('eq', a, b))
+
+
 def run(ctx):
     sys.setrecursionlimit(20000)
     max_depth = read_max_depth()
@@ -896,6 +936,7 @@ def run(ctx):
             ind = c.get('indent')
             run_serial(ctx, [decode_value(c['value'])], lambda v: [ind], max_depth)
         return
+    run_eq(ctx)
     thorough = ctx.tier == 'thorough'
 
     # 1. corpus
